@@ -175,6 +175,8 @@ func familyKindsExt(family string) []string {
 		return StakeKinds
 	case "alleg":
 		return AllegKinds
+	case "eth":
+		return EthKinds
 	case "stake":
 		return StakeKinds
 	case "gov":
